@@ -12,6 +12,7 @@ from vf import core, spaces
 
 LEAGUE = [(6, 2), (7, 0.01), (5, 0.5), (6, 2)]  # β-units; p1's tiny sigma makes tau / limit_sigma visible
 MATCHUPS = [((0,), (1,)), ((2,), (3,)), ((0,), (2,)), ((0, 1), (2, 3)), ((0,), (1,), (2,))]
+TWINS = ((0,), (3,))  # p0 and p3 carry the same values: in the same-id leg of I2 the two teams are equal in values AND ids (a team and its deepcopy)
 MODEL_CFGS = {"default": {}, "limit": {"limit_sigma": True}, "tau0": {"tau_b": 0.0}, "tau2b": {"tau_b": 2.0}}
 
 
@@ -367,7 +368,15 @@ class Search:
     def step(self, hist, oi, init_model_snap):
         """-> (digest of successor, observation, violations [(inv, msg)], globals_changed)"""
         op = self.ops[oi]
-        m, L = self.build(hist)
+        try:
+            m, L = self.build(hist)
+        except core.HarnessError:
+            raise
+        except Exception as e:
+            # every call of the warm-up and of a history is valid: an exception here is the library's (R7), typically state left behind
+            # by an earlier call in this process (a rejected call that poisoned a default argument, a stuck re-entrancy guard)
+            return None, None, [("R7", f"a valid call of the warm-up / of the history {[describe(self.ops[h]) for h in hist]} raised "
+                                       f"{type(e).__name__}: {e} - state left behind by an earlier call in this process")], False
         vals = [(p.mu, p.sigma) for p in L]
         g0 = snap_globals()
         viol = []
@@ -525,6 +534,7 @@ def _rate_ops(beta, matchups, options, enc_alternate=False):
 def ops_full(beta):
     options = [(t, l) for t in (None, 0, 0.5 * beta) for l in (None, True, False)]
     ops = _rate_ops(beta, MATCHUPS, options)
+    ops += _rate_ops(beta, [TWINS], [(None, None), (None, True)])
     for mt in MATCHUPS:
         for p in ("predict_win", "predict_draw", "predict_rank"):
             ops.append((p, mt))
@@ -537,6 +547,7 @@ def ops_full(beta):
 def ops_reduced(beta):
     options = [(None, None), (0, None), (0.5 * beta, None), (None, True), (None, False)]
     ops = _rate_ops(beta, [MATCHUPS[0], MATCHUPS[1], MATCHUPS[4]], options, enc_alternate=True)
+    ops += _rate_ops(beta, [TWINS], [(None, None)])
     for mt in MATCHUPS:
         for p in ("predict_win", "predict_draw", "predict_rank"):
             ops.append((p, mt))
@@ -558,6 +569,7 @@ def ops_toggle(beta):
         for (tau, ls) in options:
             ops.append(("rate", MATCHUPS[0], r, tau, ls, "ranks"))
     ops.append(("rate", MATCHUPS[0], (1, 0), None, None, "scores"))
+    ops.append(("rate", TWINS, (0, 0), None, None, "ranks"))
     ops += [("predict_draw", MATCHUPS[0]), ("predict_rank", MATCHUPS[4]), ("bad", "ranks-short"), ("restore", "rating"), ("deepcopy",), ("mutate",), ("foreign",)]
     return ops
 
